@@ -79,8 +79,14 @@ def _max_violation(
                 row, rhs = lp_data.A_ub[i_ub], lp_data.b_ub[i_ub]
                 i_ub += 1
             magnitude = float(np.abs(row) @ x_abs + abs(rhs))
-            if np.any((row != 0) & (np.abs(row) <= 1e-9)):
-                magnitude *= dropped_entry_rtol / row_rtol
+            ignored = (row != 0) & (np.abs(row) <= 1e-9)
+            if np.any(ignored):
+                # (only if what HiGHS ignored matters at this point: a 1e-12
+                # coefficient on a variable of size 1e4 is not what the tight
+                # floor is for)
+                dropped = float(np.abs(row[ignored]) @ x_abs[ignored])
+                if dropped > atol + dropped_entry_rtol * magnitude:
+                    magnitude *= dropped_entry_rtol / row_rtol
         if constraint.sense == "<=":
             violation = value
         elif constraint.sense == ">=":
